@@ -3,7 +3,7 @@
    rollover / reopen, and at every operation boundary of any script including merges); what is NOT
    yet proved is listed at the end and is decided by enumeration of crash images cut from recorded
    real traces (`bin/check C03`). *)
-From BC Require Import Store.Codec Store.CodecProofs Store.Engine Store.Log Store.Cons Store.Inv Store.Refine Store.Merge Store.Theorems.
+From BC Require Import Store.Codec Store.CodecProofs Store.Engine Store.Log Store.Cons Store.Inv Store.Refine Store.Merge Store.Theorems Store.Crash Store.CrashScript.
 Open Scope N_scope.
 
 (* 1. At every operation boundary of every ready script — merges included — the directory can be
@@ -80,9 +80,31 @@ Example C03_torn_example :
   scan dec_entry (enc_entry e1 ++ enc_entry e2) = Some [(0, 29, e1); (29, 18, e2)].
 Proof. split; vm_compute; reflexivity. Qed.
 
+(* 6. Crash safety over byte-level file-system states.  [fs_run] executes a trace of system calls on
+      a file system of byte strings; a crash image of a trace is the file system after any prefix of its
+      calls, the last write possibly cut at any byte ([image_of]).  [img_ok img m]: what the scanner
+      reads from the image (theorem 5) is a directory that opens, and the opened store reads the map [m].
+      For every script of sets, deletes, gets and reopens, every crash image of its trace recovers to
+      the map after the first n operations for some n: all acknowledged operations, and the one in
+      flight entirely or not at all. *)
+Theorem C03_crash_safe_no_merge : forall c ops s0, no_merge ops -> rep s0 (s_dir init) ->
+  forall img, image_of s0 (snd (run c init ops)) img ->
+    exists n, (n <= length ops)%nat /\ img_ok img (abs (state_after c init ops n)).
+Proof. exact crash_safe_no_merge. Qed.
+Print Assumptions C03_crash_safe_no_merge.
+
+(* ... and for scripts with merges, given the same statement for one merge pass (Store/CrashMerge.v) *)
+Theorem C03_script_crash_safe : forall c ops s s0,
+  Inv s -> run_ready c s ops -> rep s0 (s_dir s) ->
+  (forall s' o, Inv s' -> op_ready c s' o -> In o ops -> step_safe_at c s' o) ->
+  (exists s1, fs_run s0 (snd (run c s ops)) = Some s1 /\ rep s1 (s_dir (fst (fst (run c s ops))))) /\
+  forall img, image_of s0 (snd (run c s ops)) img ->
+    exists n, (n <= length ops)%nat /\ img_ok img (abs (state_after c s ops n)).
+Proof. exact script_crash_safe. Qed.
+Print Assumptions C03_script_crash_safe.
+
 (* Not yet proved in Coq (C03_crash_safe in DESIGN.md section 8):
      - crash points strictly inside a merge pass (between its copies, its fsyncs and its unlinks),
-     - the composition of 2 and 5 into one statement over byte-level file-system states,
      - histories with several crashes.
    `bin/check C03` covers them by opening, with the real code, every image cut from the recorded real
    trace of every generated workload at every call boundary and at byte cuts inside writes. *)
